@@ -48,15 +48,19 @@ def mem_ops(r, n):
 
 
 class CtxGen:
-    def __init__(self, r):
+    def __init__(self, r, ops=None, always_return_clean=False):
         self.r = r
+        self.ops = ops or mem_ops
+        self.clean = always_return_clean
 
     def proc_body(self, avail, depth):
         r = self.r
-        parts = [gen_exec.span(mem_ops(r, 1 + r.below(5)))]
+        parts = [gen_exec.span(self.ops(r, 1 + r.below(5)))]
         if depth > 0 and avail > 0 and r.chance(1, 2):
             i = r.below(avail)
             k = r.below(4)
+            if k == 1 and self.clean and self.flags[i] != "K":
+                k = 0
             if k == 0:
                 parts.append("C %d" % i)
             elif k == 1:
@@ -66,9 +70,11 @@ class CtxGen:
                 parts.append("J %s J %s %s" % (gen_exec.span(w), r.choice(["D", "DC"]), gen_exec.span(["drop"] * 4)))
             else:
                 parts.append("C %d" % i)
-            parts.append(gen_exec.span(mem_ops(r, 1 + r.below(3))))
+            parts.append(gen_exec.span(self.ops(r, 1 + r.below(3))))
         # return with depth 16 most of the time
-        if r.chance(4, 5):
+        if self.clean:
+            parts.append(gen_exec.span(["drop"] * 24))
+        elif r.chance(4, 5):
             parts.append(gen_exec.span(["drop"] * r.choice([8, 16, 24])))
         b = parts[0]
         for p in parts[1:]:
@@ -79,13 +85,17 @@ class CtxGen:
         r = self.r
         k = 1 + r.below(4)
         procs = []
+        self.flags = []
         for i in range(k):
             flag = r.weighted([("U", 3), ("K", 3)])
             procs.append("%s %s" % (flag, self.proc_body(i, 2)))
-        root_parts = [gen_exec.span(mem_ops(r, 2 + r.below(5)))]
+            self.flags.append(flag)
+        root_parts = [gen_exec.span(self.ops(r, 2 + r.below(5)))]
         for _ in range(1 + r.below(3)):
             i = r.below(k)
             kind = r.below(5)
+            if kind == 2 and self.clean and self.flags[i] != "K":
+                kind = 1
             if kind <= 1:
                 root_parts.append("C %d" % i)
             elif kind == 2:
@@ -93,7 +103,7 @@ class CtxGen:
             else:
                 w = ["push:h%d.%d" % (i, j) for j in range(4)]
                 root_parts.append("J %s J %s %s" % (gen_exec.span(w), "DC" if kind == 3 else "D", gen_exec.span(["drop"] * 4)))
-            root_parts.append(gen_exec.span(mem_ops(r, 1 + r.below(4))))
+            root_parts.append(gen_exec.span(self.ops(r, 1 + r.below(4))))
         b = root_parts[0]
         for p in root_parts[1:]:
             b = "J %s %s" % (b, p)
